@@ -174,7 +174,9 @@ struct Outcome { polls: Vec<PollRec>, out: Vec<u64>, counts: Vec<(String, usize)
 
 fn play(keepalive: Option<u64>, script: &[String]) -> Outcome {
     routinator::verif::reset();
-    let forced: Vec<u64> = script.iter().filter(|t| *t == "ok" || *t == "fail").map(|t| (t == "fail") as u64).collect();
+    // one value per arrival in accept order (1 = fail), then an explicit "no failure" that stays in place
+    let mut forced: Vec<u64> = script.iter().filter(|t| *t == "ok" || *t == "fail").map(|t| (t == "fail") as u64).collect();
+    forced.push(0);
     routinator::verif::set_forced("rtr.stream.new", forced);
     let rt = tokio::runtime::Builder::new_current_thread().enable_all().build().expect("runtime");
     let out = rt.block_on(async {
